@@ -46,6 +46,9 @@ def histories(rng, tier):
     for b in [2, 3, 5, 255, 256, 257, (1 << 64) - 1, 1 << 64, (1 << 64) + 1, (1 << 255) - 19,
               (1 << 256) - 1, 1 << 1000] + [rng.getrandbits(rng.randint(2, 900)) | 2 for _ in range(20)]:
         out.append("bn_rand_mod %x" % b)
+    # tiny bounds: a zero residue (rejected candidate) occurs with probability 1/b per draw
+    for b in [2, 3, 5, 7, 11, 13]:
+        out += ["bn_rand_mod %x" % b] * (25 if quick else 200)
     # seeded random histories
     for h in range(10 if quick else 200):
         out.append("inst " + hx(bytes(rng.getrandbits(8) for _ in range(rng.randint(1, 80)))))
